@@ -39,6 +39,12 @@ type c09Style struct {
 	// override: one value spelled with a literal of another kind (negative document)
 	override    *PVal
 	overrideLit string
+	// overrideField: one repeated field spelled as its first element alone, without the brackets, or one singular
+	// message field spelled as an array holding the message (negative documents)
+	overrideField *PFieldVal
+	// emptyPct: empty repeated / map fields are spelled [] / {} instead of being left out
+	emptyPct  int
+	usedEmpty int
 }
 
 func (st *c09Style) sp(sb *strings.Builder) {
@@ -169,13 +175,35 @@ func (st *c09Style) msg(sb *strings.Builder, m *PMsgVal) {
 			sb.WriteString(st.key(f))
 			sb.WriteByte(':')
 			st.sp(sb)
+			if fv == st.overrideField {
+				sb.WriteByte('[')
+				st.scalar(sb, fv.V)
+				sb.WriteByte(']')
+				continue
+			}
 			st.scalar(sb, fv.V)
 		case cRepeated:
 			if len(fv.L) == 0 {
+				if st.emptyPct > 0 && st.t.Chance(st.emptyPct, 100, "pjs.empty") {
+					member()
+					sb.WriteString(st.key(f))
+					sb.WriteByte(':')
+					st.sp(sb)
+					sb.WriteString("[")
+					st.sp(sb)
+					sb.WriteString("]")
+					st.usedEmpty++
+				}
 				continue
 			}
 			member()
 			sb.WriteString(st.key(f))
+			if fv == st.overrideField {
+				sb.WriteByte(':')
+				st.sp(sb)
+				st.scalar(sb, fv.L[0])
+				continue
+			}
 			sb.WriteString(":[")
 			for k, e := range fv.L {
 				if k > 0 {
@@ -188,6 +216,14 @@ func (st *c09Style) msg(sb *strings.Builder, m *PMsgVal) {
 			sb.WriteByte(']')
 		case cMap:
 			if len(fv.MK) == 0 {
+				if st.emptyPct > 0 && st.t.Chance(st.emptyPct, 100, "pjs.empty") {
+					member()
+					sb.WriteString(st.key(f))
+					sb.WriteString(":{")
+					st.sp(sb)
+					sb.WriteString("}")
+					st.usedEmpty++
+				}
 				continue
 			}
 			member()
@@ -232,6 +268,33 @@ func collectPScalars(m *PMsgVal, out *[]*PVal) {
 		}
 		for _, e := range fv.MV {
 			add(e)
+		}
+	}
+}
+
+// collectPContainers lists the non-empty repeated fields and the present singular message fields of a message.
+func collectPContainers(m *PMsgVal, out *[]*PFieldVal) {
+	for i := range m.F {
+		fv := &m.F[i]
+		f := m.T.Fields[i]
+		switch {
+		case f.Card == cRepeated && len(fv.L) > 0:
+			*out = append(*out, fv)
+		case f.Card == cSingle && fv.Set && fv.V.K == pkMessage:
+			*out = append(*out, fv)
+		}
+		if fv.Set && fv.V.K == pkMessage {
+			collectPContainers(fv.V.M, out)
+		}
+		for _, e := range fv.L {
+			if e.K == pkMessage {
+				collectPContainers(e.M, out)
+			}
+		}
+		for _, e := range fv.MV {
+			if e.K == pkMessage {
+				collectPContainers(e.M, out)
+			}
 		}
 	}
 }
@@ -284,6 +347,7 @@ func runC09(w *W) {
 	so := pgenOpts{MaxMsgs: 1 + t.Intn(4, "sch.msgs"), MaxFields: 1 + t.Intn(8, "sch.fields"), BigNums: t.Chance(1, 3, "sch.bignums"),
 		Recursive: t.Chance(1, 3, "sch.rec"), JSONNames: t.Chance(1, 3, "sch.jsonnames"), Enums: t.Chance(1, 2, "sch.enums"), MsgChance: 3}
 	so.KeyKinds = plainKeyKinds
+	so.SharedMapNames, so.RecursiveAnyCard = t.Chance(1, 3, "sch.sharedmapnames"), t.Chance(1, 2, "sch.rec.anycard")
 	sch := genPSchema(t, so)
 	desc := parseProto(w, sch)
 	opts := conv.Options{DisallowUnknownField: t.Chance(1, 4, "opt.disallow")}
@@ -302,13 +366,41 @@ func runC09(w *W) {
 			vo.MaxStr = pickInt(t, "val.wide.str", 120, 126, 130, 16380, 16390, 300)
 		}
 		mv, _ := genPMessage(t, sch, vo)
+		// deep chains: the root nested in itself through its singular self reference, beyond any stack the converter
+		// may keep per level. Such a document is either refused or converted exactly
+		deepChain := 0
+		if t.Chance(1, 10, "val.deepchain") {
+			for i, f := range sch.Root().Fields {
+				if f.Card == cSingle && f.K == pkMessage && f.Msg == sch.Root() {
+					deepChain = pickInt(t, "val.deepchain.n", 60, 126, 127, 128, 200, 253, 254, 255, 256, 257, 300, 511, 512, 600)
+					for k := 0; k < deepChain; k++ {
+						outer := newPMsgVal(sch.Root())
+						outer.F[i] = PFieldVal{Set: true, V: &PVal{K: pkMessage, M: mv}}
+						mv = outer
+					}
+					w.Count("deep_chain_documents")
+					break
+				}
+			}
+		}
 		want, _, werr := refCanon(sch.Root().MD, sch.refEncode(mv))
 		if werr != nil {
 			w.Failf("harness-ref", nil, "reference cannot decode its own encoding: %v", werr)
 		}
-		st := &c09Style{t: t, ws: t.Intn(3, "pjs.wsmode"), byName: pickInt(t, "pjs.byname", 0, 0, 1, 2), nullPct: pickInt(t, "pjs.nullpct", 0, 0, 20), unkPct: pickInt(t, "pjs.unkpct", 0, 0, 15)}
+		st := &c09Style{t: t, ws: t.Intn(3, "pjs.wsmode"), byName: pickInt(t, "pjs.byname", 0, 0, 1, 2), nullPct: pickInt(t, "pjs.nullpct", 0, 0, 20), unkPct: pickInt(t, "pjs.unkpct", 0, 0, 15), emptyPct: pickInt(t, "pjs.emptypct", 0, 30, 100)}
 		negative := ""
-		if t.Chance(1, 6, "doc.negative") {
+		if t.Chance(1, 12, "doc.negative.container") {
+			var fs []*PFieldVal
+			collectPContainers(mv, &fs)
+			if len(fs) > 0 {
+				st.overrideField = fs[t.Intn(len(fs), "doc.negative.container.which")]
+				if st.overrideField.Set {
+					negative = "a singular message field spelled as an array holding the message"
+				} else {
+					negative = "a repeated field spelled as its first element, without brackets"
+				}
+			}
+		} else if t.Chance(1, 6, "doc.negative") {
 			var sc []*PVal
 			collectPScalars(mv, &sc)
 			if len(sc) > 0 {
@@ -359,7 +451,7 @@ func runC09(w *W) {
 				doc, tailOK = withTail(js) // the document is a prefix of a larger buffer of the caller's
 			}
 			w.NextOp(fmt.Sprintf("j2p doc %d env %s", d, env))
-			facts := map[string]string{"env": env.String(), "negative": fmt.Sprint(negative != ""), "unknown_members": fmt.Sprint(st.usedUnk > 0), "null_members": fmt.Sprint(st.usedNull > 0)}
+			facts := map[string]string{"env": env.String(), "negative": fmt.Sprint(negative != ""), "unknown_members": fmt.Sprint(st.usedUnk > 0), "null_members": fmt.Sprint(st.usedNull > 0), "deep_chain": fmt.Sprint(deepChain)}
 			w.opFacts = facts
 			var out []byte
 			var err error
@@ -398,6 +490,11 @@ func runC09(w *W) {
 					w.Failf(kind, facts, "%s but the conversion succeeded (env %s): %s\njson: %s", map[bool]string{true: negative, false: "unknown member + DisallowUnknownField"}[negative != ""], env, hexClip(out, 200), clip(js, 400))
 				}
 				w.Count("rejected_as_expected")
+				continue
+			}
+			if err != nil && deepChain >= 60 {
+				// a depth limit is the converter's to set; what it accepts must be right
+				w.Count("deep_chain_refused")
 				continue
 			}
 			if err != nil {
